@@ -378,7 +378,13 @@ def jobs_hist(prop, tier):
                 if q:
                     j += hjob(prop, p, pat, mem, 4 if p == 'd' else 3, slices=4 if p == 'd' else 1)
                 else:
-                    j += hjob(prop, p, pat, mem, 5 if p == 'd' else 4, grid='full' if p == 'd' else 'quick', slices=16 if p == 'd' else 4)
+                    # depth 5 with the 4-set alphabet for double (depth 5 with 5 value sets was measured at > 40 min on 16 cores for C18 alone), depth 4 with all 5 sets,
+                    # depth 4 for the other precisions
+                    if p == 'd':
+                        j += hjob(prop, p, pat, mem, 5, grid='quick', slices=16)
+                        j += hjob(prop, p, pat, mem, 4, grid='full', slices=4)
+                    else:
+                        j += hjob(prop, p, pat, mem, 4, grid='quick', slices=4)
     if prop == 'C08':
         # K16 (Engine S): first factorization inline, then a RE-factorization (usepr yes/no, new values) whose every interleaving is explored
         b = 1 if q else 2
